@@ -169,8 +169,10 @@ closeLoop:
 
 func (s *atpServerSession) runATPReadLoop() {
 	// The message is generic, so we must find the type and decode the full message next.
-	var runtimeMessage DecodedRuntimeMessage
 	for {
+		// A fresh value for every message: fields that are missing from a message must not keep the values
+		// of the previous one.
+		var runtimeMessage DecodedRuntimeMessage
 		// First, decode the message
 		// Note: This blocks. To abort early, close stdin.
 		vh("s.recv.pre")
